@@ -452,6 +452,27 @@ def run(ctx):
     ctx.check(not problems and npaths >= 3, "R19.12", uid, f"execute_request: answered and flushed on {npaths} paths",
               msg=f"shell_handler, execute_request: {sorted(set(problems))[:3]}", key="execute answered and flushed", node=hf, rel="jupyter_kernel.py", sample={"paths": npaths})
 
+    ctx.rule("R19.13", "execution results reflect the executed cell: every value other than None is published as execute_result with its repr (0, False, '' and empty "
+             "containers included), None publishes nothing", floor=5)
+    for val, shown in ((Const(0), "0"), (Const(False), "False"), (Const(""), "''"), (ListV((), "list"), "[]"), (Const(7), "7"), (NONE, None)):
+        pol = FlowPolicy(program, events=["self.send", "self.housekeep_q.put"], may_raise_all=False, cancel=False, locals_=None, record_atoms=True, inline=helpers,
+                         summaries={"self.deserialize_wire_msg": lambda i, n, a, k, c, o: [(c, ListV([Sym(("identities",)), msg], "tuple"))],
+                                    "self.ast_ctx.eval": lambda i, n, a, k, c, o, val=val: [(c, val)], "repr": lambda i, n, a, k, c, o: [(c, App("repr", tuple(a)))],
+                                    "handshake_q.get": lambda i, n, a, k, c, o: [(c, NONE)], "asyncio.Queue": lambda i, n, a, k, c, o: [(c, ObjV("hq", "Queue"))]})
+        pol.loop_unroll = 1
+        out = run_flow(program, uid, pol, args={"self": ObjV("self", "Kernel"), "shell_socket": Sym(("shell",)), "wire_msg": Sym(("wire",))}, heap=dict(heap))
+        ex = [(k, c, d) for k, c, d in exits(out) if not any("parse" in repr(a) for a, v in c.assume)]
+        res = set()
+        for k, c, d in exits(out):
+            if k != "return":
+                res.add(d)
+                continue
+            pub = [e for e in c.trace if e[0] == "call" and e[1] == "self.send" and len(e[2]) > 1 and e[2][1] == Const("execute_result")]
+            res.add(len(pub))
+        want = {0} if shown is None else {1}
+        ctx.check(res == want, "R19.13", uid, f"cell value {shown}", msg=f"execute_request whose cell evaluates to {shown}: execute_result messages published {sorted(map(str, res))}, specified {sorted(want)}",
+                  key=f"execute_result {shown}", node=hf, rel="jupyter_kernel.py")
+
     ctx.rule("R19.6", "a whole message reaches the transport in one write: concurrent senders on one socket (shell replies and stdout forwarding share iopub) cannot interleave frames", floor=4)
     for meth, arg, label in (("send_multipart", ListV([Const(b"a"), Const(b"bb" * 200), Const(b"")]), "three frames"), ("send_multipart", ListV([Const(b"only")]), "one frame"),
                              ("send", Const(b"payload"), "single-frame message with its delimiter"), ("send", Const(b"x" * 300), "long single-frame message")):
